@@ -246,3 +246,78 @@ Example c09_nonvacuous_plu_float : exists L U P,
                     (match r with 0 => 2 | 1 => 0 | _ => 1 end)%nat c)
       L U i k.
 Proof. exact Proofs.PLUFloat.ex_plu_float_hyps. Qed.
+
+(* ---------------------------------------------------------------------------------------------
+   The pivoting guarantee |l_ij| <= 1 of c09_plu_shape at the FLOAT level (binary64 instance);
+   proofs in Proofs/PLUFloatMult.v.
+   The pivot search replaces its running maximum when [ngtb value max] (max < value, strict: the first
+   row wins ties; a NaN value is never selected unless it is the initial entry m_ii, and then it is never
+   replaced).  [mult_origin x]: x = ndiv a b for some a, b with [ngtb (nabs a) (nabs b) = false], i.e.
+   the pivot comparison did not find |a| greater than |b|.
+   No hypothesis on the input is needed: every entry of L that is not NaN is finite and at most 1 in
+   absolute value.  An entry of L can be NaN (NaN in the input, or 0/0 when the threshold is NaN because
+   an input entry is infinite) and nothing is claimed about such an entry.
+   --------------------------------------------------------------------------------------------- *)
+From SV Require Import Proofs.PLUFloatMult.
+
+(* any Num instance whose comparison satisfies the two facts used by the search (x > x is false; x > v
+   false and v' > v imply x > v' false — both hold for binary64, NaN and infinities included, and for R):
+   every returned multiplier is a quotient whose numerator was not found greater than its denominator;
+   later row interchanges permute the stored multipliers without changing them *)
+Theorem c09_plu_multiplier_origin : forall (T : Type) (NT : Num T),
+  (forall x : T, ngtb x x = false) ->
+  (forall x v v' : T, ngtb x v = false -> ngtb v' v = true -> ngtb x v' = false) ->
+  forall (n : nat) (A L U P : mat T), plu n n A = Ok (L, U, P) ->
+  forall r c, (r < n)%nat -> (c < n)%nat -> (c < r)%nat -> mult_origin (L r c).
+Proof. exact (@Proofs.PLUFloatMult.plu_multiplier_origin). Qed.
+Check c09_plu_multiplier_origin : forall (T : Type) (NT : Num T),
+  (forall x : T, ngtb x x = false) ->
+  (forall x v v' : T, ngtb x v = false -> ngtb v' v = true -> ngtb x v' = false) ->
+  forall (n : nat) (A L U P : mat T), plu n n A = Ok (L, U, P) ->
+  forall r c, (r < n)%nat -> (c < n)%nat -> (c < r)%nat -> mult_origin (L r c).
+Print Assumptions c09_plu_multiplier_origin.
+
+(* the division lemma: NOT (|b| < |a|) in the float comparison and a quotient that is not NaN *)
+Theorem c09_fdiv_abs_le_one : forall a b : PrimFloat.float,
+  PrimFloat.ltb (PrimFloat.abs b) (PrimFloat.abs a) = false ->
+  is_nan (Prim2B (PrimFloat.div a b)) = false ->
+  is_finite (Prim2B (PrimFloat.div a b)) = true /\ Rabs (B2R (Prim2B (PrimFloat.div a b))) <= 1.
+Proof. exact Proofs.PLUFloatMult.fdiv_abs_le_one. Qed.
+Check c09_fdiv_abs_le_one : forall a b : PrimFloat.float,
+  PrimFloat.ltb (PrimFloat.abs b) (PrimFloat.abs a) = false ->
+  is_nan (Prim2B (PrimFloat.div a b)) = false ->
+  is_finite (Prim2B (PrimFloat.div a b)) = true /\ Rabs (B2R (Prim2B (PrimFloat.div a b))) <= 1.
+Print Assumptions c09_fdiv_abs_le_one.
+
+(* every entry of L that is not NaN is finite and |L_ij| <= 1 *)
+Theorem c09_plu_float_multipliers_le_one : forall (n : nat) (A L U P : mat PrimFloat.float),
+  plu n n A = Ok (L, U, P) ->
+  forall i j, (i < n)%nat -> (j < n)%nat ->
+    is_nan (Prim2B (L i j)) = false ->
+    is_finite (Prim2B (L i j)) = true /\ Rabs (B2R (Prim2B (L i j))) <= 1.
+Proof. exact Proofs.PLUFloatMult.plu_float_multipliers_le_one. Qed.
+Check c09_plu_float_multipliers_le_one : forall (n : nat) (A L U P : mat PrimFloat.float),
+  plu n n A = Ok (L, U, P) ->
+  forall i j, (i < n)%nat -> (j < n)%nat ->
+    is_nan (Prim2B (L i j)) = false ->
+    is_finite (Prim2B (L i j)) = true /\ Rabs (B2R (Prim2B (L i j))) <= 1.
+Print Assumptions c09_plu_float_multipliers_le_one.
+
+(* the real reading alone (B2R maps NaN and the infinities to 0, so this says nothing about them) *)
+Theorem c09_plu_float_multipliers_B2R_le_one : forall (n : nat) (A L U P : mat PrimFloat.float),
+  plu n n A = Ok (L, U, P) ->
+  forall i j, (i < n)%nat -> (j < n)%nat -> Rabs (B2R (Prim2B (L i j))) <= 1.
+Proof. exact Proofs.PLUFloatMult.plu_float_multipliers_B2R_le_one. Qed.
+Check c09_plu_float_multipliers_B2R_le_one : forall (n : nat) (A L U P : mat PrimFloat.float),
+  plu n n A = Ok (L, U, P) ->
+  forall i j, (i < n)%nat -> (j < n)%nat -> Rabs (B2R (Prim2B (L i j))) <= 1.
+Print Assumptions c09_plu_float_multipliers_B2R_le_one.
+
+(* non-vacuity, by computation: [[1,2,3],[4,5,6],[7,8,10]] is factored (two interchanges, inexact
+   multipliers 1/7, 4/7, 1/2) and no entry of L is NaN, so c09_plu_float_multipliers_le_one speaks about
+   all nine entries *)
+Example c09_nonvacuous_plu_float_multipliers : exists L U P,
+  plu 3 3 (mat_of_lists [[0x1p+0; 0x1p+1; 0x1.8p+1]; [0x1p+2; 0x1.4p+2; 0x1.8p+2]; [0x1.cp+2; 0x1p+3; 0x1.4p+3]]%float)
+    = Ok (L, U, P) /\
+  forall i j, (i < 3)%nat -> (j < 3)%nat -> is_nan (Prim2B (L i j)) = false.
+Proof. exact Proofs.PLUFloatMult.ex_plu_float_mult_hyps. Qed.
